@@ -46,7 +46,7 @@ void run_d(Input const& in, Ctx& ctx) {
 	bool which[D]; std::array<bool, D> whicha{}; unsigned mask = in.head(5); long npoints = 1; int ntrans = 0;
 	for(int k = 0; k < D; ++k) { which[k] = ((mask >> k) & 1U) != 0; whicha[static_cast<std::size_t>(k)] = which[k]; if(which[k]) { npoints *= ext[k]; ++ntrans; } }
 	int const sign = (in.head(6) & 1U) ? +1 : -1;  // FFTW: forward = -1, backward = +1
-	int const kin = 2 + static_cast<int>(in.head(7) % 5U), kout = 2 + static_cast<int>(in.head(8) % 5U);
+	int const kin = vp::ops::kLayoutKinds[in.head(7) % 8U], kout = vp::ops::kLayoutKinds[in.head(8) % 8U];
 	bool const inplace = (in.head(9) % 4U) == 0;
 	unsigned seed = in.head(10);
 	ctx.desc << "D=" << D << " extents("; for(int k = 0; k < D; ++k) { ctx.desc << (k ? "," : "") << ext[k]; } ctx.desc << ") which{"; for(int k = 0; k < D; ++k) { ctx.desc << (which[k] ? 'T' : 'F'); }
